@@ -206,8 +206,8 @@ func wellFormed(c *Case) string {
 	if c.Kind != "page" && c.Panic {
 		return "walk with panicking field functions"
 	}
-	if c.Kind != "page" && externallyManaged(c) {
-		return "walk over an externally managed connection"
+	if c.Kind != "page" && resolverPaginates(c) {
+		return "walk over an externally managed connection that reports the resolver's page info"
 	}
 	if (c.Field == "extI" || c.Field == "dualI") && c.Ext == nil {
 		return "externally managed field without resolver info"
@@ -342,7 +342,31 @@ func main() {
 		if c.Kind == "page" && c.Args.After != nil && c.Args.Before != nil {
 			run.Hist("page:after+before")
 		}
+		if c.Kind == "page" {
+			f, l := c.Args.First, c.Args.Last
+			switch {
+			case (f != nil && *f < 0) || (l != nil && *l < 0):
+				run.Hist("page-size-class:negative")
+			case f != nil && l != nil:
+				run.Hist("page-size-class:first-together-with-last")
+			case f != nil && *f == 0:
+				run.Hist("page-size-class:first-zero")
+			case l != nil && *l == 0:
+				run.Hist("page-size-class:last-zero")
+			case f == nil && l == nil:
+				run.Hist("page-size-class:none")
+			default:
+				run.Hist("page-size-class:positive")
+			}
+		}
 		if c.Kind != "page" {
+			over := "thunder-managed"
+			if externallyManaged(c) {
+				over = "externally-managed-with-SetPageInfo"
+			} else if c.Field == "dualI" {
+				over = "fallback-of-ManualPaginationWithFallback"
+			}
+			run.Hist("walk-over:" + over)
 			run.Hist(fmt.Sprintf("walk-pages:%s", bucket(len(pages))))
 		}
 		kb, _ := json.Marshal(c)
